@@ -504,6 +504,9 @@ func runCrash(cfg CrashCfg, seed uint64, cas int) *CrashRes {
 		case EvRet:
 			if w.ops[e.Addr].Stable {
 				lo = int(e.Addr) + 1
+				// the instant right after a stable acknowledgement (it may have
+				// caused no disk write at all)
+				jobs = append(jobs, imageJob{img: it.PrefixImage(), lo: lo, hi: hi, cut: it.pos, kind: "prefix", desc: fmt.Sprintf("right after the stable acknowledgement of op %d", e.Addr), want: -1})
 			}
 		case EvWrite:
 			nw++
